@@ -353,7 +353,7 @@ def main(tier, replay=None):
     return rep.finish({
         "evaluations": n_ev,
         "distinct_nontrivial": len(nontriv),
-        "traces_validated_against_impl": len(traces),
+        "traces_validated_against_impl": len(traces) + rep.cov.get("traces_validated_against_impl", 0),   # + pairs replayed by the nested-list tier
         "rule": "nested lists with 1-3 alternatives over <= 4 variables (intervals along one variable plus half-planes): disjoint, touching, overlapping, "
                 "mixed, in shuffled order; the disjointness requirement through the nested-list constructor, through copy(True) of a list built unchecked "
                 "and through the contract constructor given such a list as assumptions, membership of dyadic behaviours, <= between nested lists, "
